@@ -240,6 +240,22 @@ func c11EvalWrite(c *Ctx, cs Case) {
 	// ---- the efivarfs contract, from the property statement ----
 	wantPath := dir + "/" + name + "-" + canonGUIDText(g)
 	written := c11CheckWriteLog(log, wantPath, attrs, value, signed, fault != "", fail)
+	// ... and the filesystem itself, looked at beside the library: after a write on a healthy filesystem it holds exactly
+	// one file, <efivars directory>/<Name>-<canonical lower-case GUID>, whose content is the buffer of the contract
+	if fault == "" && err == nil {
+		var files []string
+		afero.Walk(rec.inner, "/", func(p string, info os.FileInfo, werr error) error {
+			if werr == nil && info != nil && !info.IsDir() {
+				files = append(files, p)
+			}
+			return nil
+		})
+		if len(files) != 1 || files[0] != wantPath {
+			fail("after the write the filesystem does not hold exactly the one file <efivars directory>/<Name>-<canonical lower-case GUID>: it holds ["+strings.Join(files, " ")+"]", wantPath)
+		} else if stored, rerr := afero.ReadFile(rec.inner, wantPath); rerr != nil || c11WantBuffer(stored, attrs, value, signed) != "" {
+			fail("after the write the variable's file does not hold the 4-byte little-endian attribute mask followed by the encoded value: "+clip(hx(stored)), c11WantBuffer(nil, attrs, value, signed))
+		}
+	}
 	// ---- correspondence with the Lean program model ----
 	modelValue, bufLen := value, 4+len(value)
 	if signed {
@@ -950,6 +966,19 @@ func c11Gen(c *Ctx) {
 		n := []string{"x", "MyVar", "Boot0001", "a-b-c", "UPPER_lower.9"}[c.Rng.Intn(5)]
 		defs = append(defs, def{n, guidFromWire(randBytes(c, 16)), c.Rng.Uint32() & 0xff})
 	}
+	// arbitrary names: the file is <efivars directory>/<Name>-<GUID> whatever the name is, also for names that are not
+	// file-name-like on their own - the empty name (the zero value of Efivar.Name), names made of dots, names with a
+	// leading / trailing dot, blank or dash, and names whose last '/'-separated element is empty, "." or ".." (only the
+	// COMPOSED file name is a path; cleaning the bare name before the GUID suffix is attached gives another file).
+	// Each with a GUID of its own, and the first five also under the global-variable GUID.
+	oddNames := []string{"", ".", "..", "x/.", "x/..", "...", ".hidden", "trailing.", "a..b", " ", "-", "sub/dir/Name", "Boot/", "MyVar/.", "MyVar/.."}
+	c.Note("names_not_file_name_like", len(oddNames))
+	for i, n := range oddNames {
+		defs = append(defs, def{n, guidFromWire(randBytes(c, 16)), []uint32{0x07, 0x27, 0x47, 0x03}[i%4]})
+		if i < 5 {
+			defs = append(defs, def{n, *efivar.SetupMode.GUID, uint32(efivar.SetupMode.Attributes)})
+		}
+	}
 	for i, d := range defs {
 		if c.NFailures() >= 6 {
 			return
@@ -1080,23 +1109,26 @@ func c11Gen(c *Ctx) {
 		if vals == nil {
 			vals = [][]byte{db, encodeList(tSHA256, nil, 48, [][2][]byte{{u.owners[0], u.data[0]}, {u.owners[1], u.data[1]}}), nil}
 		}
-		arg := ""
+		args := []string{""}
 		if a.name == "GetBootEntry" {
-			arg = []string{"Boot0001", "Boot00AF"}[i%2]
+			// the name is the caller's: a firmware name, and names that are not file-name-like on their own
+			args = []string{[]string{"Boot0001", "Boot00AF"}[i%2], "", ".", "..", "Boot/.."}
 		}
-		req := uint32(a.def(arg).Attributes)
-		for j, val := range vals {
-			dir := dirs[(i+j)%len(dirs)]
-			for mk, m := range map[string]uint32{"equal": req, "superset": req | 0x88, "lacking": req &^ (req & -req)} {
-				if a.name == "GetBootEntry" && mk != "lacking" {
-					continue // a value is needed for these: C18
+		for _, arg := range args {
+			req := uint32(a.def(arg).Attributes)
+			for j, val := range vals {
+				dir := dirs[(i+j)%len(dirs)]
+				for mk, m := range map[string]uint32{"equal": req, "superset": req | 0x88, "lacking": req &^ (req & -req)} {
+					if a.name == "GetBootEntry" && mk != "lacking" {
+						continue // a value is needed for these: C18
+					}
+					file := make([]byte, 4)
+					binary.LittleEndian.PutUint32(file, m)
+					c11EvalTyped(c, Case{"op": "read-typed", "accessor": a.name, "arg": arg, "class": "mask-" + mk, "dir": dir, "file": hx(append(file, val...))})
 				}
-				file := make([]byte, 4)
-				binary.LittleEndian.PutUint32(file, m)
-				c11EvalTyped(c, Case{"op": "read-typed", "accessor": a.name, "arg": arg, "class": "mask-" + mk, "dir": dir, "file": hx(append(file, val...))})
-			}
-			for _, short := range []string{"absent", "0700"} {
-				c11EvalTyped(c, Case{"op": "read-typed", "accessor": a.name, "arg": arg, "class": "short-or-absent", "dir": dir, "file": short})
+				for _, short := range []string{"absent", "0700"} {
+					c11EvalTyped(c, Case{"op": "read-typed", "accessor": a.name, "arg": arg, "class": "short-or-absent", "dir": dir, "file": short})
+				}
 			}
 		}
 	}
@@ -1249,8 +1281,8 @@ func c11Gen(c *Ctx) {
 
 func init() {
 	register("C11", &PropDef{
-		Rule:   "every predefined efivar.Efivar (25, each also with APPEND_WRITE added) and random (name, GUID, attribute) definitions x values {empty, boolean, UTF-16 string, signature database, raw} x three efivars directories x the object API (EFIFS over FSWrapper.SetFS) and the legacy attributes.* API (fs.SetFS), on a recording afero.Fs, healthy and with one failing or short call (OpenFile error, Write error, Write one byte short, Write of zero bytes, Close error); every definition's value is also written as a SIGNED update (Efivarfs.WriteSignedUpdate over the EFIFS, RSA-2048): one write to the definition's file with the definition's flags whose buffer is the DEFINITION's 4-byte mask (with or without the time-based-authentication / append bits) followed by an authentication descriptor (by extent) and the value; reads with stored masks {equal, superset, subset, disjoint} and absent / 0..3-byte files, with a probe value that records whether decoding was attempted. The legacy by-name API (attributes.WriteEfivars / ReadEfivars, which derives the vendor GUID from the name): every predefined definition under the global or image-security-database GUID, the four database names db/dbx/dbt/dbr, and suffix / truncation / case variations of all of them (not database names unless they coincide with one), written (also with APPEND_WRITE and with the faults) and read (also through ReadEfivarsWithGuid) against the file <Name>-<GUID of the definition>. The typed accessors (GetPK, GetKEK, Getdb, Getdbx, GetSetupMode, GetSecureBoot, GetBootOrder, GetLoaderEntrySelected, GetBootEntry) against the file of their own definition: only that file is opened, stored masks equal / superset / lacking one required attribute, absent and short files, values of their kind decoded beside the library. ParseEfivars (both twins) with the true size and sizes below four is held to the statement directly, other declared sizes only to the translated code. Writes in flight at once: 90 (thorough 3000) cases of 2..3 goroutines that each write a different variable (values: empty, boolean, boot order, UTF-16 string, 1..96 and 100..500 raw bytes; one shared attribute mask in two cases of three) on ONE caller-supplied filesystem whose Write parks until every writer has reached its own Write - the writers are started one after the other, each when the one before is parked, so the interleaving is always the same - through one shared EFIFS, one EFIFS / FSWrapper per writer, or the legacy package-level API: each write must do on its file exactly what it does alone (one OpenFile with its flags, one Write of ITS mask and ITS value, Close; the file holds them afterwards) and nothing else is touched. Value sizes: buffers of 2^k-1, 2^k, 2^k+1 bytes (k = 9, 12, 13, 16; thorough also 15) and SHA-256 databases of 100 / 400 / 1000 (thorough 3000) entries through every API, healthy and faulted, and read back. Held results: sequences of 2..8 (thorough ..20) reads and writes of 1..4 variables (values of 0..2000 bytes that grow, shrink and repeat; masks equal / superset / lacking a required attribute; absent and short files) through ONE EFIFS / FSWrapper and the one legacy filesystem, every read through one of GetVar and GetVarWithAttributes (with an Unmarshallable that keeps the bytes it is handed, without copying), FSWrapper.ReadEfivarsWithGuid, FSWrapper.ReadEfivarsFile and attributes.ReadEfivarsWithGuid (the returned *bytes.Buffer is kept): each read is compared with the bytes the file holds at that moment and with the Lean model, and every value handed out by an earlier read is compared again after every later read and write (of another variable, or of the same one after a new write) and must still be the value that was read. Every case is non-trivial; distinct = distinct cases.",
-		Assume: []string{"variable names contain no '/' and the efivars directory is a clean absolute path (path.Join would otherwise rewrite them)", "with a filesystem other than the in-memory one the legacy writer additionally probes the immutable flag of the same path on the operating system's filesystem (attr.IsImmutable, which opens with O_CREATE); with the operating system's own filesystem that is the file being written. With the in-memory filesystem nothing outside it may be touched: the real-dir cases check that against a directory that exists on the machine (F34)"},
+		Rule:   "every predefined efivar.Efivar (25, each also with APPEND_WRITE added), random (name, GUID, attribute) definitions and definitions whose NAME is not file-name-like on its own - the empty name (zero value of Efivar.Name), '.', '..', '...', names with a leading / trailing dot, a blank, a dash, names with '/' in them and names whose last '/'-separated element is empty, '.' or '..' (x/., x/.., MyVar/., Boot/), each under a GUID of its own and the first five also under the global-variable GUID: the file is <efivars directory>/<Name>-<GUID> with the name as it is (only the composed file name is a path) - x values {empty, boolean, UTF-16 string, signature database, raw} x three efivars directories x the object API (EFIFS over FSWrapper.SetFS) and the legacy attributes.* API (fs.SetFS), on a recording afero.Fs, healthy and with one failing or short call (OpenFile error, Write error, Write one byte short, Write of zero bytes, Close error); every definition's value is also written as a SIGNED update (Efivarfs.WriteSignedUpdate over the EFIFS, RSA-2048): one write to the definition's file with the definition's flags whose buffer is the DEFINITION's 4-byte mask (with or without the time-based-authentication / append bits) followed by an authentication descriptor (by extent) and the value; after every write on a healthy filesystem the filesystem itself is inspected beside the library: it holds exactly ONE file, <efivars directory>/<Name>-<canonical lower-case GUID>, whose content is the mask followed by the encoded value; reads with stored masks {equal, superset, subset, disjoint} and absent / 0..3-byte files (the file placed at that path beside the library), with a probe value that records whether decoding was attempted. The legacy by-name API (attributes.WriteEfivars / ReadEfivars, which derives the vendor GUID from the name): every predefined definition under the global or image-security-database GUID, the four database names db/dbx/dbt/dbr, and suffix / truncation / case variations of all of them (not database names unless they coincide with one), written (also with APPEND_WRITE and with the faults) and read (also through ReadEfivarsWithGuid) against the file <Name>-<GUID of the definition>. The typed accessors (GetPK, GetKEK, Getdb, Getdbx, GetSetupMode, GetSecureBoot, GetBootOrder, GetLoaderEntrySelected, GetBootEntry) against the file of their own definition: only that file is opened, stored masks equal / superset / lacking one required attribute, absent and short files, values of their kind decoded beside the library; GetBootEntry, which reads the variable of the NAME it is given, also with the empty name, '.', '..' and Boot/.. . ParseEfivars (both twins) with the true size and sizes below four is held to the statement directly, other declared sizes only to the translated code. Writes in flight at once: 90 (thorough 3000) cases of 2..3 goroutines that each write a different variable (values: empty, boolean, boot order, UTF-16 string, 1..96 and 100..500 raw bytes; one shared attribute mask in two cases of three) on ONE caller-supplied filesystem whose Write parks until every writer has reached its own Write - the writers are started one after the other, each when the one before is parked, so the interleaving is always the same - through one shared EFIFS, one EFIFS / FSWrapper per writer, or the legacy package-level API: each write must do on its file exactly what it does alone (one OpenFile with its flags, one Write of ITS mask and ITS value, Close; the file holds them afterwards) and nothing else is touched. Value sizes: buffers of 2^k-1, 2^k, 2^k+1 bytes (k = 9, 12, 13, 16; thorough also 15) and SHA-256 databases of 100 / 400 / 1000 (thorough 3000) entries through every API, healthy and faulted, and read back. Held results: sequences of 2..8 (thorough ..20) reads and writes of 1..4 variables (values of 0..2000 bytes that grow, shrink and repeat; masks equal / superset / lacking a required attribute; absent and short files) through ONE EFIFS / FSWrapper and the one legacy filesystem, every read through one of GetVar and GetVarWithAttributes (with an Unmarshallable that keeps the bytes it is handed, without copying), FSWrapper.ReadEfivarsWithGuid, FSWrapper.ReadEfivarsFile and attributes.ReadEfivarsWithGuid (the returned *bytes.Buffer is kept): each read is compared with the bytes the file holds at that moment and with the Lean model, and every value handed out by an earlier read is compared again after every later read and write (of another variable, or of the same one after a new write) and must still be the value that was read. Every case is non-trivial; distinct = distinct cases.",
+		Assume: []string{"no '/'-separated element of a variable name other than its last one is empty, '.' or '..' (names such as '/x', 'a//b', 'a/./b', 'a/../b': path.Join rewrites the composed file name <Name>-<GUID> itself; the last element, to which the GUID suffix is attached, may be anything, the empty name included), names contain no NUL, and the efivars directory is a clean absolute path; the legacy by-name API is exercised with names without '/' only", "with a filesystem other than the in-memory one the legacy writer additionally probes the immutable flag of the same path on the operating system's filesystem (attr.IsImmutable, which opens with O_CREATE); with the operating system's own filesystem that is the file being written. With the in-memory filesystem nothing outside it may be touched: the real-dir cases check that against a directory that exists on the machine (F34)"},
 		Eval:   c11Eval, Gen: c11Gen,
 	})
 }
